@@ -152,6 +152,11 @@ def _r_cmd0(c, ind):
         if c[1] == "l":
             return "shopt -%s lastpipe" % ("s" if c[2] else "u")
         raise ValueError(c[1])
+    if k == "Fx":
+        # a fatal expansion error: the shell (or the subshell it happens in) is abandoned with status 1 — the
+        # models see `exit 1` (that brush and bash treat it so is what the comparison checks)
+        return {"q": ": ${UNSETZZ?gone} 2>/dev/null", "u": "set -u; : $UNSETZZ 2>/dev/null", "c": ": ${UNSETZZ:?} 2>/dev/null",
+                "a": "set -u; : $((UNSETZZ + 1)) 2>/dev/null"}[c[1]]
     if k == "Fa":
         return {"r": "RO=1 true", "n": "nosuchcmd_zz 2>/dev/null", "d": "true < /nonexistent_zz/f 2>/dev/null",
                 "b": "XT=1 true", "x": "XT=1 /bin/true"}[c[1]]
@@ -243,6 +248,8 @@ def wire(c, out):
     elif k == "Pi":
         out += ["Pi", str(len(c[1]))] + [str(x) for x in c[1]]
         wire(c[2], out)
+    elif k == "Fx":
+        out += ["X", "1"]
     elif k == "Fa":
         out += ["Fa", c[1]]
     elif k == "KT":
